@@ -284,12 +284,16 @@ class Gen:
         elif not unit: base = ["IOrNot", item]
         else: base = ["IRep", item, lo, hi]
         if unit: return base
-        for _ in range(2):
-            if self.iter_adapt and self.r.random() < 0.25:
-                a = self.r.choice(["IEnum", "IMap", "IMapWith"])
-                if a == "IEnum": base = ["IEnum", base]
-                elif a == "IMap": base = ["IMap", self.fn1(), base]
+        # adaptors: chumsky 0.10.1 only offers map/map_with on iterables whose items are `()`; enumerate goes on top
+        n_ad = 0
+        if self.iter_adapt and base[0] in ("IRep", "ISep", "IRepCfg") and self.r.random() < 0.2:
+            base[1] = ["Ignored", base[1]]
+            for _ in range(self.r.randint(1, 2)):
+                if self.r.random() < 0.5: base = ["IMap", self.fn1(), base]
                 else: base = ["IMapWith", self.r.choice([m for m in self.mws if m != "MWSlice"]), base]
+                n_ad += 1
+        if self.iter_adapt and n_ad < 2 and self.r.random() < 0.2:
+            base = ["IEnum", base]
         return base
 
 # ---------------------------------------------------------------------------------------------
